@@ -300,7 +300,27 @@ func ApplyEdit(g G, p *Project, d *verifsim.Disk, inPlace bool) string {
 			d.RemoveAll(p.Root + "/tsconfig.json")
 			desc += " deleted"
 		default:
-			switch g.n(6) {
+			switch g.n(9) {
+			case 6:
+				// "extends" a base file that may not exist (yet)
+				p.TS.Extends = !p.TS.Extends
+				if !p.TS.Extends && p.TS.BasePresent {
+					p.TS.BasePresent = false
+					d.RemoveAll(p.Root + "/tsconfig.base.json")
+				}
+			case 7, 8:
+				// the base file appears, changes or vanishes while the derived file stays as it is
+				p.TS.Extends = true
+				if p.TS.BasePresent && g.n(2) == 0 {
+					p.TS.BasePresent = false
+					d.RemoveAll(p.Root + "/tsconfig.base.json")
+				} else {
+					if !p.TS.BasePresent {
+						desc += " (base config file appears)"
+					}
+					p.TS.BasePresent = true
+					p.TS.BaseJSX++
+				}
 			case 0:
 				p.TS.JSX = g.n(4)
 			case 1:
